@@ -80,11 +80,13 @@ func (x *Exec) rangeAxiom(key string, t *Term) {
 	x.ranged[t.id] = true
 	c := x.C
 	var lo, hi *Term
+	allocBound := false
 	switch l.Role {
 	case "len", "cap", "off":
 		lo, hi = c.Int(0), c.Add(c.Pow2(47), c.Int(1))
 	case "arr":
 		lo, hi = c.Int(0), c.Add(x.curAlloc, c.Int(1))
+		allocBound = true
 	case "val":
 		// interface payloads are allocated pointers when every implementation is a pointer type
 		it, ok := types.Unalias(l.Type).Underlying().(*types.Interface)
@@ -101,6 +103,7 @@ func (x *Exec) rangeAxiom(key string, t *Term) {
 			}
 		}
 		lo, hi = c.Int(0), c.Add(x.curAlloc, c.Int(1))
+		allocBound = true
 		// the payload's dynamic type is the interface's tag (paired component: .tag)
 		allDyn := true
 		for _, im := range impls {
@@ -128,6 +131,7 @@ func (x *Exec) rangeAxiom(key string, t *Term) {
 		switch types.Unalias(l.Type).Underlying().(type) {
 		case *types.Pointer, *types.Map, *types.Chan:
 			lo, hi = c.Int(0), c.Add(x.curAlloc, c.Int(1))
+			allocBound = true
 			if k, ok := x.dynTag(l.Type); ok {
 				x.dynAxiom(key, t, k, nil)
 			}
@@ -145,14 +149,20 @@ func (x *Exec) rangeAxiom(key string, t *Term) {
 		}
 	}
 	p := c.NewBound("p", SInt)
+	// bounds that refer to the allocation counter only hold for allocated objects:
+	// the cells of objects allocated later are unconstrained in this version
+	guard := c.True()
+	if allocBound {
+		guard = c.Le(p, x.curAlloc)
+	}
 	if strings.HasPrefix(key, "A!") || strings.HasPrefix(key, "M!") && !strings.HasSuffix(key, ".len") {
 		i := c.NewBound("i", SInt)
 		sel := c.Select(c.Select(t, p), i)
-		x.assumeGlobal(c.Forall([]*Term{p, i}, c.InRange(sel, lo, hi), []*Term{sel}))
+		x.assumeGlobal(c.Forall([]*Term{p, i}, c.Implies(guard, c.InRange(sel, lo, hi)), []*Term{sel}))
 		return
 	}
 	sel := c.Select(t, p)
-	x.assumeGlobal(c.Forall([]*Term{p}, c.InRange(sel, lo, hi), []*Term{sel}))
+	x.assumeGlobal(c.Forall([]*Term{p}, c.Implies(guard, c.InRange(sel, lo, hi)), []*Term{sel}))
 }
 
 func (x *Exec) heapSet(st *State, key string, t *Term) {
